@@ -30,12 +30,16 @@ func newTracker() *tracker {
 }
 
 // waitIdle blocks until at least min streams were accepted and every accepted
-// stream was closed by its handler.
-func (t *tracker) waitIdle(min int) bool {
+// stream but `outstanding` was closed by its handler.
+func (t *tracker) waitIdle(min int, outstanding ...int) bool {
+	out := 0
+	if len(outstanding) > 0 {
+		out = outstanding[0]
+	}
 	deadline := time.Now().Add(20 * time.Second)
 	t.mu.Lock()
 	defer t.mu.Unlock()
-	for t.accepted < min || t.closed < t.accepted {
+	for t.accepted < min || t.closed < t.accepted-out {
 		if time.Now().After(deadline) {
 			return false
 		}
